@@ -3,6 +3,7 @@ package main
 import (
 	"context"
 	"fmt"
+	"math"
 	"math/rand"
 
 	fuzz "github.com/google/gofuzz"
@@ -24,8 +25,20 @@ import (
 func c18TemplateFuzzer(seed int64) *fuzz.Fuzzer {
 	f := c19Fuzzer(seed)
 	f.Funcs(
-		// integers within the range pod validation accepts (the patch is round-tripped through float64)
-		func(i *int64, c fuzz.Continue) { *i = int64(c.Intn(1 << 31)) },
+		// integers within the range pod validation accepts; one in eight beyond 2^53, where the built-in
+		// controller's patch (decoded into float64 and encoded again) records a rounded value: fields such as
+		// terminationGracePeriodSeconds and tolerationSeconds have no upper bound, and the Advanced controller
+		// has to record the very same bytes
+		func(i *int64, c fuzz.Continue) {
+			*i = int64(c.Intn(1 << 31))
+			if c.Intn(8) == 0 {
+				big := []int64{1<<53 + 1, 1<<53 + 3, 1<<60 + 1, 1<<62 + 12345, math.MaxInt64, math.MaxInt64 - 1}
+				*i = big[c.Intn(len(big))]
+				if c.Intn(2) == 0 {
+					*i = 1<<53 + 1 + c.Int63n(1<<62)
+				}
+			}
+		},
 	)
 	return f
 }
